@@ -321,6 +321,10 @@ def run(rep):
                 if src[-1] < len(arc):
                     rcases.append(readcore.read_case(arc, source=src, rplan=[4096], has_skip=1, has_seek=1, consume=(0, 4096, 0)))
                     meta.append((name, "volumes%r" % (src,), 4096, (0, 4096, 0)))
+    for name, data in readcore.replicated_archives(130 if quick else 400):
+        for bs in (7, 512, 513):
+            rcases.append(readcore.read_case(data, source=(0,), rplan=[bs] * (len(data) // bs + 2), consume=(0, 4096, 0)))
+            meta.append((name, "intact", bs, (0, 4096, 0)))
     for name, data, plan in pax_inputs():
         rcases.append(readcore.read_case(data, source=(0,), rplan=plan, consume=(0, 4096, 0)))
         meta.append((name, "crafted", plan[0] if plan else 0, (0, 4096, 0)))
